@@ -410,9 +410,10 @@ def anisotropy_parameter(theta, intensity, theta_ranges=None, mode='reject'):
 
     # angular range of data to be included in the fit
     if theta_ranges is not None:
-        subtheta = np.ones(len(theta), dtype=bool)
+        # union of the requested ranges
+        subtheta = np.zeros(len(theta), dtype=bool)
         for rt in theta_ranges:
-            subtheta = np.logical_and(
+            subtheta = np.logical_or(
                 subtheta, np.logical_and(theta >= rt[0], theta <= rt[1]))
         theta = theta[subtheta]
         intensity = intensity[subtheta]
